@@ -163,6 +163,22 @@ class RoundTripLeg(object):
                 "mapping changed in the round trip:\n sent %r\n line %r\n got  %r" % (mapping, line, have),
                 sig={"kind": "rt-mapping", "fmt": d["fmt"], "kv": d["keyval separator"]},
             )
+        # the parsed feature (Attributes-backed) printed, hashed, then edited IN PLACE (value list mutated,
+        # not re-assigned), must print and re-parse as the mapping it holds now
+        if str(g) != line:
+            return Failure("re-parsed feature prints %r, expected %r" % (str(g), line), sig={"kind": "rt-reprint"})
+        hash(g)
+        k0 = list(mapping.keys())[0]
+        extra = mapping[k0][0]
+        g.attributes[k0].append(extra + "2" if d["fmt"] == "gff3" or extra.strip() == extra else "x2")
+        want2 = dict((k, list(v)) for k, v in mapping.items())
+        want2[k0] = want2[k0] + [g.attributes[k0][-1]]
+        line2 = str(g)
+        h = feature_from_line(line2, dialect=d, keep_order=True)
+        have2 = dict((k, list(v)) for k, v in h.attributes.items())
+        if have2 != want2:
+            return Failure("after appending a value in place, the feature prints %r which parses to %r, expected %r"
+                           % (line2, have2, want2), sig={"kind": "rt-stale-after-edit"})
         return None
 
 
